@@ -31,11 +31,33 @@
     C09_unresolved_real           the no-namespace id and the XML namespace are never reported
     C09_stack_invariant           FullnameSerializer: top frame = nearest-declaration bindings of the
                                   frames pushed (unique prefixes per element)
+    C09_unresolved                ONE path-indexed iff over the whole subtree: ns is reported iff some
+                                  element e of the subtree has a name in ns that the declarations on the
+                                  way from the node to e (inclusive, EMPTY frame below) give no usable prefix
+    C09_unresolved_unique_needed  closed witness: with a prefix declared twice on one element the iff fails
+    C09_inherited                 inherited_prefixes = ALL bindings in scope at the parent (default prefix
+                                  included, every prefix of a namespace) whose namespace is reported
+                                  unresolved; each prefix once
+    C09_inherited_iff             … = bindings of the parent's scope that some name of the subtree needs
+    C09_fullname_element_real     GUARD-FREE, element name in a real namespace: Ok(prefix) resolves back to the
+                                  expanded name; Ok(_) iff some prefix (default included) is bound to the
+                                  namespace; otherwise exactly MissingPrefix(ns)
+    C09_fullname_element_iff      elements, exact boundary: an Ok answer is wrong iff the name is in no namespace
+                                  and a default namespace is in scope
+    C09_fullname_attribute_iff    attributes, exact boundary: an Ok answer is wrong iff the name is in a real
+                                  namespace and the EMPTY prefix is reported; C09_fullname_attribute_guard_not_needed:
+                                  the guard of _attribute_partial is sufficient, not necessary (closed witness)
+    C09_prefix_first              WHICH prefix: for a real namespace, the prefix of the first pair that
+                                  namespaces_in_scope yields with that namespace
+    C09_fullname_attribute_boundary   input-level boundary of the attribute finding: misreported iff the first
+                                  pair namespaces_in_scope yields with the attribute's namespace is the default prefix
 -/
 import XotModel.Lemmas.Scope
 import XotModel.Lemmas.ScopeStack
 import XotModel.Lemmas.ScopeWalk
 import XotModel.Lemmas.ScopeSerialise
+import XotModel.Lemmas.ScopeUnres
+import XotModel.Lemmas.ScopeFirst
 
 namespace XotModel.Props
 open XotModel
@@ -294,51 +316,8 @@ theorem C09_unresolved_element (env : Env) (s : FStack) (frames : List (List (Na
       (env.nsOfName name = ns ∧ ns ≠ Env.noNamespace ∧ ns ≠ Env.xmlNamespace ∧
         ∀ p, scopeOf frames p ≠ some ns) ∨
       (∃ a ∈ t.attrs.map (·.1), env.nsOfName a = ns ∧ ns ≠ Env.noNamespace ∧
-        ns ≠ Env.xmlNamespace ∧ ∀ p, p ≠ Env.emptyPrefix → scopeOf frames p ≠ some ns) := by
-  have hk : ∀ n, knownIn s.top n = false ↔ ∀ p, scopeOf frames p ≠ some n := by
-    intro n
-    rw [Bool.eq_false_iff, Ne, knownIn_iff]
-    constructor
-    · intro hne p hp; exact hne ⟨p, (h.mem p n).2 hp⟩
-    · rintro hall ⟨p, hp⟩; exact hall p ((h.mem p n).1 hp)
-  have ha : ∀ n, attrKnownIn s.top n = false ↔ ∀ p, p ≠ Env.emptyPrefix → scopeOf frames p ≠ some n := by
-    intro n
-    rw [Bool.eq_false_iff, Ne, attrKnownIn_iff]
-    constructor
-    · intro hne p hp0 hp; exact hne ⟨p, hp0, (h.mem p n).2 hp⟩
-    · rintro hall ⟨p, hp0, hp⟩; exact hall p hp0 ((h.mem p n).1 hp)
-  simp only [unresolvedOfElement, List.mem_append, List.mem_filterMap, elementPrefix_ok,
-    attributePrefix_ok]
-  constructor
-  · rintro (h1 | ⟨a, hmem, h1⟩)
-    · left
-      by_cases hc : (env.nsOfName name == Env.noNamespace || env.nsOfName name == Env.xmlNamespace ||
-          knownIn s.top (env.nsOfName name)) = true
-      · simp [hc] at h1
-      · simp only [hc, Bool.not_false, ↓reduceIte, List.mem_singleton] at h1
-        subst h1
-        simp only [Bool.or_eq_true, beq_iff_eq, not_or, Bool.not_eq_true] at hc
-        exact ⟨rfl, hc.1.1, hc.1.2, (hk _).1 hc.2⟩
-    · right
-      by_cases hc : (env.nsOfName a == Env.noNamespace || env.nsOfName a == Env.xmlNamespace ||
-          attrKnownIn s.top (env.nsOfName a)) = true
-      · simp [hc] at h1
-      · simp only [hc, Bool.not_false, ↓reduceIte, Option.some.injEq] at h1
-        subst h1
-        simp only [Bool.or_eq_true, beq_iff_eq, not_or, Bool.not_eq_true] at hc
-        exact ⟨a, hmem, rfl, hc.1.1, hc.1.2, (ha _).1 hc.2⟩
-  · rintro (⟨rfl, h0, h1, h2⟩ | ⟨a, hmem, rfl, h0, h1, h2⟩)
-    · left
-      have : (env.nsOfName name == Env.noNamespace || env.nsOfName name == Env.xmlNamespace ||
-          knownIn s.top (env.nsOfName name)) = false := by
-        simp [h0, h1, (hk _).2 h2]
-      simp [this]
-    · right
-      refine ⟨a, hmem, ?_⟩
-      have : (env.nsOfName a == Env.noNamespace || env.nsOfName a == Env.xmlNamespace ||
-          attrKnownIn s.top (env.nsOfName a)) = false := by
-        simp [h0, h1, (ha _).2 h2]
-      simp [this]
+        ns ≠ Env.xmlNamespace ∧ ∀ p, p ≠ Env.emptyPrefix → scopeOf frames p ≠ some ns) :=
+  mem_unresolvedOfElement_gen env s.top frames h t name ns
 
 /-- The no-namespace id and the XML namespace are never reported as unresolved. -/
 theorem C09_unresolved_real (env : Env) (t : Tree) (path : Path) (l : List Nat)
@@ -360,6 +339,232 @@ theorem C09_stack_invariant (s : FStack) (frames : List (List (Nat × Nat))) (de
     FrameInv (s.push decls).top (decls :: frames) ∧ (s.push decls).pop (!decls.isEmpty) = s :=
   ⟨h.push decls hd, FStack.pop_push s decls⟩
 
+/-! ### `unresolved_namespaces` and `inherited_prefixes` over the whole subtree -/
+
+/-- `unresolved_namespaces(node)`, one statement for the whole subtree.  The result is a list in
+    document order WITH repetitions (one entry per name that cannot be written; the code does not
+    deduplicate), so the statement is about membership: `ns` is reported iff there is an element
+    `e` (at raw path `q` below `node`, `chain` = the nodes from `e` up to `node`) with
+    `NeedsNs … e ns`: `ns` is real and not the XML namespace, and either `e`'s element name is in
+    `ns` and NO prefix is bound to `ns`, or one of `e`'s attribute names is in `ns` and no
+    NON-EMPTY prefix is bound to `ns` — bindings read by the nearest-declaration rule `scopeOf`
+    over the declarations of the elements of `chain` only (`elementFrames chain`, innermost first):
+    the name stack starts from an EMPTY frame, nothing above `node` counts.
+    Hypothesis: no element of the subtree declares a prefix twice. -/
+theorem C09_unresolved (env : Env) (t : Tree) (path : Path) (sub : Tree) (l : List Nat)
+    (hs : t.at? path = some sub) (hu : UniqueDeclsBelow sub)
+    (h : unresolvedNamespaces env t path = some l) (ns : Nat) :
+    ns ∈ l ↔ ∃ q chain e, sub.ancestorsOrSelf q = some chain ∧ sub.at? q = some e ∧
+      NeedsNs env (scopeOf (elementFrames chain)) e ns := by
+  simp only [unresolvedNamespaces, hs, Option.map_some, Option.some.injEq] at h
+  subst h
+  rw [mem_unresolvedNamespacesSub env sub hu ns]
+  simp [UnresolvedIn]
+
+/-- `NeedsNs` spelled out. -/
+theorem C09_unresolved_needs (env : Env) (sc : Nat → Option Nat) (e : Tree) (ns : Nat) :
+    NeedsNs env sc e ns ↔
+      ∃ name, e.value = .element name ∧ ns ≠ Env.noNamespace ∧ ns ≠ Env.xmlNamespace ∧
+        ((env.nsOfName name = ns ∧ ∀ p, sc p ≠ some ns) ∨
+         (∃ a ∈ e.attrs.map (·.1), env.nsOfName a = ns ∧
+            ∀ p, p ≠ Env.emptyPrefix → sc p ≠ some ns)) := Iff.rfl
+
+/-- The hypothesis of `C09_unresolved` is needed: `<a xmlns:p="A" xmlns:p="B"/>` with `a` in `B`
+    (a state the namespace map of the API cannot produce). `FullnameInfo::new` keeps both entries,
+    so `B` counts as bound, while a lookup of `p` gives `A`. -/
+theorem C09_unresolved_unique_needed :
+    ¬ ∀ (env : Env) (sub : Tree) (ns : Nat), ns ∈ unresolvedNamespacesSub env sub ↔ UnresolvedIn env [] sub ns := by
+  intro h
+  have h1 := (h { namespaces := [], prefixes := [], names := [(['a'], 3)] }
+    (.node (.element 0) [.node (.namespace 2 2) [], .node (.namespace 2 3) []]) 3).2
+    ⟨[], _, _, rfl, rfl, 0, rfl, by decide, by decide, .inl ⟨by decide, by
+      intro p
+      have hd : (Tree.node (.element 0) [.node (.namespace 2 2) [], .node (.namespace 2 3) []]).nsDecls =
+          [(2, 2), (2, 3)] := by decide
+      simp only [elementFrames, Tree.value, Value.isElement, List.filter_cons_of_pos, List.filter_nil,
+        List.map_cons, List.map_nil, List.append_nil, scopeOf, hd]
+      by_cases hp : p = 2
+      · subst hp; decide
+      · have : (p == 2) = false := by simpa using hp
+        simp [List.lookup, this]⟩⟩
+  revert h1
+  decide
+
+/-- `inherited_prefixes(node)`, exactly: the pairs `(p, ns)` such that `p` is bound to `ns` in the
+    PARENT's scope (`scopeSpec`, so never `xmlns=""`, and including the `xml` binding in
+    principle — but see `C09_unresolved_real`: the XML namespace is never reported) and `ns` is
+    among `unresolved_namespaces(node)`.  Nothing is selected per namespace: if several prefixes
+    are bound to a needed namespace ALL of them are inherited, and the default prefix is inherited
+    like any other (also when the only name needing `ns` is an attribute name, which the default
+    prefix cannot serve).  Each prefix occurs once; a root (no parent) inherits nothing. -/
+theorem C09_inherited (env : Env) (t : Tree) (path : Path) (l : List (Nat × Nat))
+    (h : inheritedPrefixes env t path = some l) :
+    (∀ p ns, (p, ns) ∈ l ↔
+      path ≠ [] ∧ scopeSpec t path.dropLast p = some ns ∧
+        ∃ u, unresolvedNamespaces env t path = some u ∧ ns ∈ u) ∧
+    (l.map Prod.fst).Nodup := by
+  unfold inheritedPrefixes at h
+  cases hs : t.at? path with
+  | none => simp [hs] at h
+  | some sub =>
+    simp only [hs, Option.some.injEq] at h
+    subst h
+    simp only [unresolvedNamespaces, hs, Option.map_some, Option.some.injEq, exists_eq_left']
+    cases path with
+    | nil => simp
+    | cons i rest =>
+      simp only [List.isEmpty_cons, Bool.false_eq_true, ↓reduceIte, ne_eq, reduceCtorEq,
+        not_false_eq_true, true_and, List.mem_filter, List.contains_eq_mem, decide_eq_true_eq]
+      cases hn : namespacesInScope t (i :: rest).dropLast with
+      | none =>
+        have : t.ancestorsOrSelf (i :: rest).dropLast = none := by
+          simpa [namespacesInScope] using hn
+        simp [scopeSpec, this]
+      | some l' =>
+        obtain ⟨hmem, hnd, _, _⟩ := C09_in_scope t _ l' hn
+        simp only [Option.getD_some]
+        refine ⟨fun p ns => by rw [hmem], ?_⟩
+        exact (List.filter_sublist.map Prod.fst).nodup hnd
+
+/-- "A binding is inherited iff some name in the subtree needs it": with `C09_unresolved`. -/
+theorem C09_inherited_iff (env : Env) (t : Tree) (path : Path) (sub : Tree) (l : List (Nat × Nat))
+    (hs : t.at? path = some sub) (hu : UniqueDeclsBelow sub)
+    (h : inheritedPrefixes env t path = some l) (p ns : Nat) :
+    (p, ns) ∈ l ↔
+      path ≠ [] ∧ scopeSpec t path.dropLast p = some ns ∧
+        ∃ q chain e, sub.ancestorsOrSelf q = some chain ∧ sub.at? q = some e ∧
+          NeedsNs env (scopeOf (elementFrames chain)) e ns := by
+  rw [(C09_inherited env t path l h).1 p ns]
+  simp only [unresolvedNamespaces, hs, Option.map_some, Option.some.injEq, exists_eq_left']
+  rw [C09_unresolved env t path sub _ hs hu (by simp [unresolvedNamespaces, hs]) ns]
+
+/-! ### Qualified names: the exact boundaries -/
+
+/-- The common case, no guard: an ELEMENT name in a real namespace.  `name_ref` / `full_name` /
+    `node_name_ref` answer `Ok(prefix)` exactly when some prefix — the default prefix included — is
+    bound to the namespace in the node's scope, the reported prefix then resolves (by the rule for
+    element names) to the name's namespace, and otherwise the answer is `MissingPrefix(ns)`. -/
+theorem C09_fullname_element_real (env : Env) (chain : List Tree) (name : Nat)
+    (hns : env.nsOfName name ≠ Env.noNamespace) :
+    (∀ p, nameRefChain env chain name = .ok p →
+      resolveQName chain false p = some (env.nsOfName name)) ∧
+    ((∃ p, nameRefChain env chain name = .ok p) ↔
+      ∃ q, scopeSpecChain chain q = some (env.nsOfName name)) ∧
+    ((∀ q, scopeSpecChain chain q ≠ some (env.nsOfName name)) →
+      nameRefChain env chain name = .error (.missingPrefix (env.nsOfName name))) := by
+  have hb : (env.nsOfName name != Env.noNamespace) = true := by simpa [bne] using hns
+  have hsound : ∀ p, nameRefChain env chain name = .ok p →
+      scopeSpecChain chain p = some (env.nsOfName name) := by
+    intro p h
+    rcases nameRefChain_ok h with ⟨h0, _⟩ | ⟨_, hs⟩
+    · exact absurd h0 hns
+    · exact hs
+  have hcomplete : (∃ q, scopeSpecChain chain q = some (env.nsOfName name)) →
+      ∃ p, nameRefChain env chain name = .ok p := by
+    rintro ⟨q, hq⟩
+    obtain ⟨p, hp⟩ := pfnDecls_complete (env.nsOfName name) (allDecls chain) []
+      ⟨q, by simp, scopeSpecChain_some_lookup hq⟩
+    exact ⟨p, by simp [nameRefChain, hb, prefixForNamespaceChain, pfnChain_eq, hp, pfnResult]⟩
+  refine ⟨fun p h => C09_fullname_element_partial env chain name p h (fun h0 => absurd h0 hns),
+    ⟨fun ⟨p, h⟩ => ⟨p, hsound p h⟩, hcomplete⟩, fun hall => ?_⟩
+  unfold nameRefChain
+  simp only [hb, ↓reduceIte]
+  cases hp : prefixForNamespaceChain chain (env.nsOfName name) with
+  | none => rfl
+  | some p =>
+    exfalso
+    exact hall p (hsound p (by simp [nameRefChain, hb, hp]))
+
+/-- Elements, exact boundary of the open finding: an `Ok(prefix)` resolves back to the name's
+    namespace iff it is NOT the case that the name is in no namespace while a default namespace
+    is in scope. -/
+theorem C09_fullname_element_iff (env : Env) (chain : List Tree) (name p : Nat)
+    (h : nameRefChain env chain name = .ok p) :
+    resolveQName chain false p = some (env.nsOfName name) ↔
+      ¬ (env.nsOfName name = Env.noNamespace ∧ ∃ d, scopeSpecChain chain Env.emptyPrefix = some d) := by
+  constructor
+  · rintro hr ⟨h0, d, hd⟩
+    rcases nameRefChain_ok h with ⟨_, rfl⟩ | ⟨hne, _⟩
+    · simp only [resolveQName, beq_self_eq_true, ↓reduceIte, Bool.false_eq_true, hd, Option.getD_some,
+        h0, Option.some.injEq] at hr
+      exact scopeSpecChain_empty_ne chain (hr ▸ hd)
+    · exact hne h0
+  · intro hg
+    apply C09_fullname_element_partial env chain name p h
+    intro h0
+    cases hd : scopeSpecChain chain Env.emptyPrefix with
+    | none => rfl
+    | some d => exact absurd ⟨h0, d, hd⟩ hg
+
+/-- Attributes, exact boundary of the open finding: an `Ok(prefix)` resolves back to the name's
+    namespace iff it is NOT the case that the name is in a real namespace and the EMPTY prefix is
+    reported (which happens when `prefix_for_namespace` meets the default declaration of that
+    namespace before any other unshadowed prefix bound to it). -/
+theorem C09_fullname_attribute_iff (env : Env) (chain : List Tree) (name p : Nat)
+    (h : nameRefChain env chain name = .ok p) :
+    resolveQName chain true p = some (env.nsOfName name) ↔
+      ¬ (env.nsOfName name ≠ Env.noNamespace ∧ p = Env.emptyPrefix) := by
+  constructor
+  · rintro hr ⟨hne, rfl⟩
+    simp only [resolveQName, beq_self_eq_true, ↓reduceIte, Option.some.injEq] at hr
+    exact hne hr.symm
+  · intro hg
+    rcases nameRefChain_ok h with ⟨h0, rfl⟩ | ⟨hne, hs⟩
+    · simp [resolveQName, h0]
+    · have hp : p ≠ Env.emptyPrefix := fun hp => hg ⟨hne, hp⟩
+      have : (p == Env.emptyPrefix) = false := by simpa using hp
+      simp [resolveQName, this, hs]
+
+/-- The guard of `C09_fullname_attribute_partial` (the namespace is not the default namespace in
+    scope) is sufficient but NOT necessary: in `<a xmlns:p="A" xmlns="A" A:x=""/>` the walk meets
+    `p` first and the attribute is reported correctly as `p:x` although `A` is the default
+    namespace.  The exact boundary is `C09_fullname_attribute_iff`. -/
+theorem C09_fullname_attribute_guard_not_needed :
+    ∃ (env : Env) (chain : List Tree) (name p : Nat), nameRefChain env chain name = .ok p ∧
+      scopeSpecChain chain Env.emptyPrefix = some (env.nsOfName name) ∧
+      resolveQName chain true p = some (env.nsOfName name) :=
+  ⟨{ namespaces := [], prefixes := [[]], names := [(['x'], 2)] },
+    [.node (.attribute 0 []) [],
+     .node (.element 0) [.node (.namespace 2 2) [], .node (.namespace 0 2) [], .node (.attribute 0 []) []]],
+    0, 2, by rfl, by decide, by decide⟩
+
+/-- WHICH prefix `prefix_for_namespace` reports for a real namespace: the prefix of the first pair
+    `namespaces_in_scope(node)` yields with that namespace (nearest element first, declaration
+    order within an element, shadowed declarations skipped). -/
+theorem C09_prefix_first (t : Tree) (path : Path) (ns : Nat) (hns : ns ≠ Env.noNamespace)
+    (l : List (Nat × Nat)) (h : namespacesInScope t path = some l) :
+    prefixForNamespace t path ns = some ((l.find? (fun kv => kv.2 == ns)).map Prod.fst) := by
+  simp only [namespacesInScope, Option.map_eq_some_iff] at h
+  obtain ⟨chain, hc, rfl⟩ := h
+  simp [prefixForNamespace, hc, prefixForNamespaceChain_eq_find chain ns hns]
+
+/-- The attribute finding at input level: an attribute name in a real namespace gets an `Ok`
+    answer that does not resolve back iff the FIRST pair `namespaces_in_scope` yields with its
+    namespace is the default prefix. -/
+theorem C09_fullname_attribute_boundary (env : Env) (chain : List Tree) (name : Nat)
+    (hns : env.nsOfName name ≠ Env.noNamespace) :
+    (∃ p, nameRefChain env chain name = .ok p ∧
+        resolveQName chain true p ≠ some (env.nsOfName name)) ↔
+      ((namespacesInScopeChain chain).find? (fun kv => kv.2 == env.nsOfName name)).map Prod.fst =
+        some Env.emptyPrefix := by
+  rw [← prefixForNamespaceChain_eq_find chain _ hns]
+  have hb : (env.nsOfName name != Env.noNamespace) = true := by simpa [bne] using hns
+  constructor
+  · rintro ⟨p, hp, hr⟩
+    have hp0 : p = Env.emptyPrefix := by
+      by_cases hp0 : p = Env.emptyPrefix
+      · exact hp0
+      · exact absurd ((C09_fullname_attribute_iff env chain name p hp).2 (fun h => hp0 h.2)) hr
+    subst hp0
+    simp only [nameRefChain, hb, ↓reduceIte] at hp
+    cases hq : prefixForNamespaceChain chain (env.nsOfName name) with
+    | none => simp [hq] at hp
+    | some q => simp only [hq, Except.ok.injEq] at hp; rw [hp]
+  · intro h
+    refine ⟨Env.emptyPrefix, by simp [nameRefChain, hb, h], ?_⟩
+    simp only [resolveQName, beq_self_eq_true, ↓reduceIte, ne_eq, Option.some.injEq]
+    exact fun h0 => hns h0.symm
+
 /-! ### Non-vacuity -/
 
 /-- `<a xmlns:p="A" xmlns:q="B"><b xmlns:p="C"/></a>` at `b`, namespace `B`: found past the
@@ -380,5 +585,24 @@ example : NoPrefixToEmptyUri [.node (.element 2) [.node (.namespace 0 0) [], .no
   rintro (⟨rfl, rfl⟩ | ⟨rfl, rfl⟩)
   · rfl
   · simp [Env.noNamespace] at hn
+
+/-- `<a xmlns:p="A"><b B:x=""/></a>` (b in A, x in B): unique declarations; `B` is reported for the
+    whole tree, `A` only for `b` alone, and `b` inherits exactly `p ↦ A`. -/
+def c09UnresTree : Tree :=
+  .node (.element 0) [.node (.namespace 2 2) [], .node (.element 0) [.node (.attribute 1 []) []]]
+def c09UnresEnv : Env := { namespaces := [], prefixes := [], names := [(['a'], 2), (['x'], 3)] }
+
+example : UniqueDeclsBelow c09UnresTree := uniqueDeclsB_sound _ (by decide)
+example : unresolvedNamespaces c09UnresEnv c09UnresTree [] = some [3] := by decide
+example : unresolvedNamespaces c09UnresEnv c09UnresTree [1] = some [2, 3] := by decide
+example : inheritedPrefixes c09UnresEnv c09UnresTree [1] = some [(2, 2)] := by decide
+
+/-- Two prefixes and the default bound to the needed namespace: all three are inherited. -/
+example : inheritedPrefixes c09UnresEnv (.node (.element 5) [.node (.namespace 2 2) [], .node (.namespace 3 2) [],
+    .node (.namespace 0 2) [], .node (.element 0) []]) [3] = some [(2, 2), (3, 2), (0, 2)] := by decide
+
+/-- `<a xmlns:p="A"><A:b/></a>`: element `b` in `A`, bound only by prefix: `Ok(p)`; unbound `B`: error. -/
+example : nameRefChain c09UnresEnv [.node (.element 0) [], c09UnresTree] 0 = .ok 2 := by rfl
+example : nameRefChain c09UnresEnv [.node (.element 1) [], c09UnresTree] 1 = .error (.missingPrefix 3) := by rfl
 
 end XotModel.Props
